@@ -134,7 +134,7 @@ func c13Gen(r *rand.Rand, lane string) *c13Case {
 		item("stages:")
 		w("      - input:")
 		w("          dest_addr: 127.0.0.1")
-		w(`          uri: "/get?x=` + core.Pick(r, "1", "test_idx", "a%20b", "<script>") + `"`)
+		w(`          uri: "/get?x=` + core.Pick(r, "1", "test_idx", "a%20b", "<script>", "1", "caf\u27e6E9\u27e7=1", "\u27e6FF\u27e7\u27e6C0\u27e7") + `"`)
 		if core.Chance(r, 1, 3) {
 			w("          headers:")
 			w(`            User-Agent: "OWASP CRS test agent"` + core.Pick(r, "", " ", "   "))
@@ -183,8 +183,22 @@ func c13GenMulti(r *rand.Rand, lane string) *c13Case {
 	return c
 }
 
+// c13Bytes puts raw bytes in place of the tokens the generator writes for them (a case is stored as JSON, which
+// cannot carry bytes that are not valid UTF-8).
+func c13Bytes(s string) string {
+	return strings.NewReplacer("\u27e6E9\u27e7", "\xe9", "\u27e6FF\u27e7", "\xff", "\u27e6C0\u27e7", "\xc0\x80").Replace(s)
+}
+
 func c13Check(env *core.Env, cc core.Case) core.Verdict {
-	c := cc.(*c13Case)
+	c0 := cc.(*c13Case)
+	cp := *c0
+	cp.Content = c13Bytes(c0.Content)
+	cp.Others = nil
+	for _, o := range c0.Others {
+		o.Content = c13Bytes(o.Content)
+		cp.Others = append(cp.Others, o)
+	}
+	c := &cp
 	root := emptyRoot(env)
 	defer rmCase(root)
 	rel := filepath.Join("tests", "regression", "tests", "REQUEST-"+c.Rule[:3]+"-TESTS", c.Rule+c.Ext)
@@ -194,6 +208,10 @@ func c13Check(env *core.Env, cc core.Case) core.Verdict {
 	tree[filepath.Join(filepath.Dir(rel), ".gitkeep")] = ""
 	tree[filepath.Join(filepath.Dir(rel), ".DS_Store")] = "test_id: 3\n"
 	tree[filepath.Join("tests", "regression", "tests", ".hidden", "920999.yaml")] = "  - test_id: 1\n"
+	// names that are not test files: no extension, another extension, a suffix behind the extension
+	for _, n := range []string{"911100", c.Rule, "911101.yaml.orig", "911102.yamlx", "911103.json", "9111000.yaml", "91110.yaml"} {
+		tree[filepath.Join(filepath.Dir(rel), n)] = "  - test_id: 9\n    test_title: x\n\n\n"
+	}
 	otherRel := map[string]c13Other{}
 	for _, o := range c.Others {
 		p := filepath.Join("tests", "regression", "tests", "REQUEST-"+o.Rule[:3]+"-TESTS", o.Rule+o.Ext)
@@ -295,7 +313,7 @@ func init() {
 	register(&core.Property{
 		ID:    "C13",
 		Level: "exploration",
-		Rule: "generated ftw-style YAML test files (0..12 tests; lanes id-only, title-only, both, both reversed, mixed; odd id values; CRLF; missing/extra final newlines, trailing white-space lines; .yaml/.yml; single rule argument or --all; text or github output) are run through the built CLI: --check, renumber, renumber again, --check. " +
+		Rule: "generated ftw-style YAML test files (0..12 tests; lanes id-only, title-only, both, both reversed, mixed; odd id values; payload lines with bytes that are not valid UTF-8; CRLF; missing/extra final newlines, trailing white-space lines; .yaml/.yml; single rule argument or --all; text or github output) are run through the built CLI: --check, renumber, renumber again, --check. " +
 			"Oracle: independent line model (n-th test_id -> n, n-th test_title -> <rule>-n, other line content equal, trailing blank lines removed, one final newline), byte comparison, snapshot of the whole tree. Non-trivial = file with >= 2 numbered fields; distinct by case hash. Domain: every file has at least one non-blank line; each line carries at most one of the two keys, written 'key:<space|tab>value'.",
 		Cases: func(env *core.Env, rng *rand.Rand) []core.Case {
 			n := env.N(1500, 15000)
@@ -316,6 +334,6 @@ func init() {
 		Check:         c13Check,
 		Decode:        decoder[c13Case](),
 		MinNontrivial: 50,
-		Assumptions:   []string{"LF normalisation of CRLF files is not an alarm (the statement speaks of line content)", "the README.md decoy next to the test file must stay untouched"},
+		Assumptions:   []string{"LF normalisation of CRLF files is not an alarm (the statement speaks of line content)", "the decoys next to the test file (README.md, six digits without extension, .yaml.orig, .yamlx, .json, five and seven digit names) must stay untouched"},
 	})
 }
